@@ -48,6 +48,7 @@ type Ext struct {
 	VariantLevel int
 	Hidden       map[*ssa.Function]bool
 	Inlined      []string
+	Split        int // structs split into their fields (variant 2)
 }
 
 type mapImporter map[string]*types.Package
@@ -198,6 +199,15 @@ func (p *Prog) LoadExt(modDir string, rels ...string) (*Ext, error) {
 	}
 	if p.VariantLevel > 0 {
 		ext.applyVariant(p.VariantLevel)
+		if os.Getenv("GODCHECK_DEBUG_VARIANTS") != "" {
+			bad := 0
+			for _, f := range ext.AllFuncs() {
+				if !ssa.SanityCheckFunction(f, os.Stdout) {
+					bad++
+				}
+			}
+			fmt.Printf("debug: %s variant %d: inlined %v, %d structs split, %d functions fail go/ssa's sanity check\n", modDir, p.VariantLevel, ext.Inlined, ext.Split, bad)
+		}
 	}
 	return ext, nil
 }
@@ -234,7 +244,11 @@ func (e *Ext) FuncNames() []string {
 // helpers that are not in the baseline list are inlined into their same-package
 // callers (level 1: single plain static call; level 2: every plain static call
 // of a small helper), `defer h()` / `go h()` of such helpers become closures, and
-// helpers inlined at every use are hidden from Funcs/AllFuncs/Func.
+// helpers inlined at every use are hidden from Funcs/AllFuncs/Func. Level 2 also
+// applies the other normalisations of Prog.Variant: function literals applied on
+// the spot, bound method values of new methods, and structs of new unexported
+// types (not listed as `type pkg.Name` in baseline_ext_funcs.txt) that are only
+// accessed field by field.
 func (e *Ext) applyVariant(level int) {
 	e.VariantLevel, e.Hidden = level, map[*ssa.Function]bool{}
 	collect := func() []*ssa.Function {
@@ -333,11 +347,45 @@ func (e *Ext) applyVariant(level int) {
 		return size(f) <= 400
 	}
 	inlined := map[*ssa.Function]bool{}
-	for _, f := range all {
-		for _, g := range ssa.InlineStaticCalls(f, func(site *ssa.Call, callee *ssa.Function) bool {
-			return callee.Pkg == f.Pkg && candidate(callee)
-		}, 4) {
-			inlined[g] = true
+	helperPass := func() {
+		for _, f := range all {
+			for _, g := range ssa.InlineStaticCalls(f, func(site *ssa.Call, callee *ssa.Function) bool {
+				return callee.Pkg == f.Pkg && candidate(callee)
+			}, 4) {
+				inlined[g] = true
+			}
+		}
+	}
+	helperPass()
+	if level >= 2 {
+		// the variant-2 normalisations of Prog.Variant (same order): function literals applied on the
+		// spot are inlined, then helpers once more, then bound method values of new methods
+		n := 0
+		for _, f := range all {
+			got := ssa.InlineStaticCalls(f, func(site *ssa.Call, callee *ssa.Function) bool {
+				mc, ok := site.Call.Value.(*ssa.MakeClosure)
+				return ok && callee.Parent() != nil && mc.Referrers() != nil && len(*mc.Referrers()) == 1
+			}, 2)
+			n += len(got)
+			if len(got) > 0 {
+				dead := map[*ssa.Function]bool{}
+				for _, g := range got {
+					dead[g] = true
+				}
+				if ssa.RemoveDeadClosures(f, dead) > 0 {
+					for g := range dead {
+						inlined[g] = true
+					}
+				}
+			}
+		}
+		if n > 0 {
+			helperPass()
+		}
+		for _, f := range all {
+			for _, g := range ssa.InlineBoundMethods(f, func(m *ssa.Function) bool { return m.Pkg == f.Pkg && isNewHelper(m) }) {
+				inlined[g] = true
+			}
 		}
 	}
 	for g := range closureized {
@@ -361,7 +409,114 @@ func (e *Ext) applyVariant(level int) {
 			e.Inlined = append(e.Inlined, FuncName(g))
 		}
 	}
+	if level >= 2 {
+		// structs of new unexported types of the loaded packages that are only accessed field by
+		// field are split into one cell per field (copies of small immutable values elided first)
+		isNewType := func(t *types.Named) bool {
+			if t == nil || t.Obj() == nil || t.Obj().Pkg() == nil || t.Obj().Exported() || t.TypeArgs().Len() > 0 || t.TypeParams().Len() > 0 {
+				return false
+			}
+			own := false
+			for _, ep := range e.Pkgs {
+				if ep.Types == t.Obj().Pkg() {
+					own = true
+				}
+			}
+			return own && (IgnoreBaseline || !baselineExtFuncs["type "+Short(t.Obj().Pkg().Path())+"."+t.Obj().Name()])
+		}
+		var wrappers []*ssa.Function
+		sites := map[*ssa.Function][]*ssa.MakeClosure{}
+		seenFn := map[*ssa.Function]bool{}
+		var scan func(f *ssa.Function)
+		scan = func(f *ssa.Function) {
+			if f == nil || seenFn[f] {
+				return
+			}
+			seenFn[f] = true
+			for _, b := range f.Blocks {
+				for _, in := range b.Instrs {
+					if mc, ok := in.(*ssa.MakeClosure); ok {
+						if k, ok := mc.Fn.(*ssa.Function); ok {
+							sites[k] = append(sites[k], mc)
+							if k.Parent() == nil { // bound-method wrapper
+								wrappers = append(wrappers, k)
+								scan(k)
+							}
+						}
+					}
+				}
+			}
+		}
+		for _, f := range all {
+			if !e.Hidden[f] {
+				scan(f)
+			}
+		}
+		live := append(append([]*ssa.Function(nil), all...), wrappers...)
+		for _, f := range live {
+			if !e.Hidden[f] {
+				ssa.ElideStructCopies(f, isNewType, sites)
+			}
+		}
+		for _, f := range live {
+			if !e.Hidden[f] {
+				e.Split += ssa.ScalarReplaceStructs(f, isNewType, sites)
+			}
+		}
+	}
+	// closures that no live function creates any more (the closure-ized `defer h()` inside a helper
+	// that was inlined everywhere) are dead code: hide them too
+	liveFn := map[*ssa.Function]bool{}
+	var mark func(f *ssa.Function)
+	mark = func(f *ssa.Function) {
+		if f == nil || liveFn[f] || f.Blocks == nil {
+			return
+		}
+		liveFn[f] = true
+		for _, b := range f.Blocks {
+			for _, in := range b.Instrs {
+				for _, op := range in.Operands(nil) {
+					if g, ok := (*op).(*ssa.Function); ok {
+						mark(g)
+					}
+				}
+			}
+		}
+	}
+	for _, f := range all {
+		if f.Parent() == nil && !e.Hidden[f] {
+			mark(f)
+		}
+	}
+	for _, f := range all {
+		if f.Parent() != nil && !liveFn[f] {
+			for a := f.Parent(); a != nil; a = a.Parent() {
+				if e.Hidden[a] {
+					e.Hidden[f] = true
+					break
+				}
+			}
+		}
+	}
 	sort.Strings(e.Inlined)
+}
+
+// TypeNames lists the named types of the loaded packages ("type <pkg>.<Name>": the
+// type lines of baseline_ext_funcs.txt are this list on the confirmed tree).
+func (e *Ext) TypeNames() []string {
+	var out []string
+	for _, ep := range e.Pkgs {
+		if ep.SSA == nil {
+			continue
+		}
+		for _, m := range ep.SSA.Members {
+			if t, ok := m.(*ssa.Type); ok {
+				out = append(out, "type "+Short(ep.SSA.Pkg.Path())+"."+t.Name())
+			}
+		}
+	}
+	sort.Strings(out)
+	return out
 }
 
 func (e *Ext) visible(fs []*ssa.Function) []*ssa.Function {
